@@ -7,7 +7,8 @@ from core.run import Acc, finish, rng_for, run_shards, NCPU, h64
 PID = "C14"
 RULE = ("a *session* is one index life: in-memory build, first on-disk build, reopen of the same directory, rebuild after a forced data-hash "
         "mismatch. Every session answers the same query set Q (every typeable fact's own words, every distinct single word of the fact "
-        "vocabulary, 1-3 letter prefixes of the 60 most frequent words, the token sets shared by several constants) and the answer vectors "
+        "vocabulary, 1-3 letter prefixes of the 60 most frequent words, the token sets shared by several constants, upper/title-case and "
+        "and/or/not variants of 60 phrases), each session in its OWN order (sorted, reverse sorted, near-duplicate clusters shuffled, fully shuffled), and the answer vectors "
         "[(description, value, unit) per query] of all sessions of a run must be identical - no reference ranking is assumed. Sessions are "
         "spread over schedule perturbations: repeated builds, processes pinned to 1/2/4/16 CPUs, producer-side jitter between add_document "
         "calls (ANYTHING_VERIF_DELAY hook), competing busy loops (thorough: strace futex delay injection, release build). The hook also "
@@ -29,6 +30,13 @@ def build_queries(facts):
         for k in (1, 2, 3):
             if len(w) >= k and w[:k] != "to":
                 q.append(w[:k])
+    # the same phrases in other letter cases and with the words and/or/not in both cases (the search library gives the upper-case
+    # forms a meaning of their own): whatever such a phrase returns, it must return it in every session and after every other query
+    multi = [x for x in q if " " in x]
+    for x in multi[::7][:60]:
+        ws = x.split(" ")
+        q += [x.upper(), x.title(), "%s and %s" % (ws[0], ws[-1]), "%s AND %s" % (ws[0], ws[-1]), "%s or %s" % (ws[0], ws[-1]),
+              "%s OR %s" % (ws[0], ws[-1]), "not %s" % ws[-1], "NOT %s" % ws[-1]]
     seen, out = set(), []
     for x in q:
         if x not in seen:
@@ -36,8 +44,38 @@ def build_queries(facts):
             out.append(x)
     return out
 
-def answers(d, queries, with_ties):
-    reps = d.call_many([{"op": "query", "q": q, "describe": True} for q in queries], timeout=900)
+def session_order(queries, label):
+    """The order in which one session asks its queries. The answer to a query must not depend on what was asked before it, so every
+    session uses its own order; near-duplicates (same phrase up to letter case, phrases sharing a long prefix) are kept adjacent
+    on purpose, in varying internal order: sorted ascending, sorted descending, clusters shuffled, fully shuffled."""
+    import random
+    rng = random.Random(h64("order|" + label))
+    idx = list(range(len(queries)))
+    kind = rng.randrange(4)
+    if kind == 0:
+        idx.sort(key=lambda i: (queries[i].lower(), queries[i]))
+    elif kind == 1:
+        idx.sort(key=lambda i: (queries[i].lower(), queries[i]), reverse=True)
+    elif kind == 2:
+        clusters = {}
+        for i in idx:
+            clusters.setdefault(queries[i].lower()[:24], []).append(i)
+        groups = list(clusters.values())
+        rng.shuffle(groups)
+        idx = []
+        for g in groups:
+            rng.shuffle(g)
+            idx += g
+    else:
+        rng.shuffle(idx)
+    return idx
+
+def answers(d, queries, with_ties, order=None):
+    order = order if order is not None else list(range(len(queries)))
+    reps_o = d.call_many([{"op": "query", "q": queries[i], "describe": True} for i in order], timeout=900)
+    reps = [None] * len(queries)
+    for i, r in zip(order, reps_o):
+        reps[i] = r
     vec = []
     for q, rep in zip(queries, reps):
         if "panic" in rep:
@@ -95,7 +133,7 @@ def shard(p):
                 acc.inconc("session %s did not start: %r" % (s["label"], ex))
                 continue
             try:
-                vec, ties = answers(d, p["queries"], p.get("ties", False) and not out)
+                vec, ties = answers(d, p["queries"], p.get("ties", False) and not out, order=session_order(p["queries"], s["label"]))
             except (DriverDied, DriverTimeout) as ex:
                 acc.inconc("session %s died: %r" % (s["label"], ex))
                 d.close(kill=True)
@@ -176,14 +214,17 @@ def run(tier, seed):
 
 def diff_detail(binp, queries, ref_vec, label):
     """Best effort: rebuild in-memory a few times and report the first query whose answer differs from the reference."""
-    for _ in range(6):
+    order = session_order(queries, label)
+    pos = {qi: k for k, qi in enumerate(order)}
+    for attempt in range(6):
         try:
             with Driver(binp) as d:
                 d.call({"op": "db", "mode": "in_memory"}, timeout=600)
-                vec, _ = answers(d, queries, False)
-            for q, a, b in zip(queries, ref_vec, vec):
+                vec, _ = answers(d, queries, False, order=order if attempt % 2 == 0 else None)
+            for i, (q, a, b) in enumerate(zip(queries, ref_vec, vec)):
                 if a != b:
-                    return "e.g. query %r: %s vs %s" % (q, a[0], b[0])
+                    before = [queries[j] for j in order[max(0, pos[i] - 2):pos[i]]] if attempt % 2 == 0 else queries[max(0, i - 2):i]
+                    return "e.g. query %r asked right after %r: %s, but %s in the reference session (asked in list order)" % (q, before, b[0], a[0])
         except Exception:
             pass
     return "(the difference did not reproduce in 6 further in-memory builds)"
